@@ -954,7 +954,23 @@ def o_graph_linear(case, T):
         T.exclude("gap_below_2px_emptiness_not_decided")
     elif g == 0:
         rel = "touching"
-        T.exclude("touching_emptiness_not_decided")
+        # exactly adjacent rasters (a shared side or corner, zero overlap) do not overlap: decided where the pixel
+        # arithmetic is exact in floats (axis-aligned boxes with power-of-two pixel sizes and dyadic origins)
+        def _exact_box(gb):
+            A_ = gb["affine"]
+            p2 = lambda v: v != 0 and math.frexp(abs(v))[0] == 0.5  # noqa: E731
+            return gb.get("family") == "exact" and A_[1] == 0 and A_[3] == 0 and p2(A_[0]) and p2(A_[4]) and all(abs(t) < 2**30 and float(t * 1024).is_integer() for t in (A_[2], A_[5]))
+
+        am, _, cm, _, em, fm = B.m
+        eX0, eX1 = min(cm, am * nx + cm), max(cm, am * nx + cm)
+        eY0, eY1 = min(fm, em * ny + fm), max(fm, em * ny + fm)
+        eg = max(eX0 - snx, 0 - eX1, eY0 - sny, 0 - eY1)
+        if _exact_box(case["dst"]["gbox"]) and _exact_box(case["src"]["gbox"]) and eg == 0:
+            _assert_no_edges(edges, "same CRS, axis-parallel, rasters exactly adjacent (they share a side or a corner, overlap area 0)")
+            decided = True
+            T.cls("touching_decided_exactly")
+        else:
+            T.exclude("touching_emptiness_not_decided")
     else:
         rel = "overlapping"
     ka, ke = case["rel"]["k"]
